@@ -32,12 +32,16 @@ class Check:
         self.floors = []
         self.extra = {}
         self.explanation = ""
+        self.prefix = ""          # set while the library rules are re-run on another build configuration
+        self.cfg_rerun = False
 
     # -- recording
     def ok(self, rule, key, detail="", loc=None, trivial=False):
+        key = self.prefix + key
         self.instances.append({"rule": rule, "key": key, "ok": True, "detail": detail, "loc": loc, "trivial": trivial})
 
     def bad(self, rule, key, detail, loc=None, data=None):
+        key = self.prefix + key
         self.instances.append({"rule": rule, "key": key, "ok": False, "detail": detail, "loc": loc, "trivial": False})
         self.violations.append({"rule": rule, "key": key, "detail": detail, "loc": loc, "data": data})
 
